@@ -237,6 +237,18 @@ def _deref(o: Any) -> Any:
     return o
 
 
+def _all_refs(o: Any, acc: list[int]) -> None:
+    """every child reference, with multiplicity, in field order"""
+    if isinstance(o, Ref):
+        acc.append(o.pos)
+    elif isinstance(o, dict):
+        for _k, v in sorted(o.items()):
+            _all_refs(v, acc)
+    elif isinstance(o, (list, tuple)):
+        for v in o:
+            _all_refs(v, acc)
+
+
 def _canon(o: Any, order: list[int], strip_tags: bool) -> Any:
     """Node record with child positions replaced by the ordinal of their first
     occurrence; order collects the child positions in that order."""
@@ -416,7 +428,11 @@ class GraphExporter:
         loc = json.dumps(_canon(nd, order, False), sort_keys=True)
         order_nt: list[int] = []
         loc_nt = json.dumps(_canon(nd, order_nt, True), sort_keys=True)
+        kidlist: list[int] = []
+        _all_refs(nd, kidlist)
         nd = _deref(nd)
+        nd["kidlist"] = kidlist
+        nd["stored"] = any("ImplStored" in t for t in nd["meta"]["tags"])
         nd["loc"] = hashlib.sha256(loc.encode()).hexdigest()[:20]
         nd["kids"] = order
         nd["loc_nt"] = hashlib.sha256(loc_nt.encode()).hexdigest()[:20]
